@@ -258,6 +258,8 @@ func (e *c08Env) step(rs res.Resource, rq *res.Request, st c08Step) {
 			rs.Event("change", nil)
 		case "invalid":
 			rs.Event("a.b", nil)
+		case "nil":
+			rs.Event("ping", nil)
 		default:
 			rs.Event("ping", map[string]interface{}{"p": 1})
 		}
@@ -381,7 +383,7 @@ func c08Run(c *core.Ctx, b core.Batch) {
 						st.Arg = "neg"
 					}
 				case "custom":
-					st.Arg = []string{"", "", "reserved", "invalid"}[r.Intn(4)]
+					st.Arg = []string{"", "nil", "reserved", "invalid", "nil"}[r.Intn(5)]
 				}
 				steps = append(steps, st)
 				if !replied && r.Intn(4) == 0 {
@@ -548,7 +550,9 @@ func c08One(c *core.Ctx, env *c08Env, steps []c08Step, typ, key, rname string, i
 				want["data"] = nil
 			}
 		case "ping":
-			want["payload"] = map[string]interface{}{"p": 1.0}
+			if d["payload"] != nil {
+				want["payload"] = map[string]interface{}{"p": 1.0}
+			}
 		}
 		for k, w := range want {
 			if jsonStr(d[k]) != jsonStr(w) {
